@@ -2202,68 +2202,3 @@ Theorem client_multiget_empty_paths us path mg :
 Proof.
   intros E. apply (client_multiget_doc_reads us path mg [path]). rewrite E. reflexivity.
 Qed.
-
-(** ** the client's documents carry no colliding namespace declaration *)
-
-Lemma existsb_map_false {A B} (f : B -> bool) (g : A -> B) l :
-  (forall x, f (g x) = false) -> existsb f (map g l) = false.
-Proof. intros H. induction l; simpl; auto. rewrite H, IHl. reflexivity. Qed.
-
-Lemma tm_nc w : collides (marshal_text_match w) = false.
-Proof.
-  destruct w as [text coll ng mt]. unfold marshal_text_match, el, at_omitempty, text_kid.
-  cbn [wtm_text wtm_collation wtm_negate wtm_match].
-  destruct (str_empty coll), ng, (str_empty mt), (str_empty text); reflexivity.
-Qed.
-
-Lemma param_nc w : collides (marshal_param_filter w) = false.
-Proof.
-  destruct w as [name ind tm]. unfold marshal_param_filter, el. cbn [wpa_name wpa_ind wpa_tm].
-  cbn [collides]. replace (attr_collides _ _) with false by reflexivity. cbn [orb].
-  rewrite existsb_app. destruct ind; cbn [flag_kid existsb]; destruct tm; cbn [opt_kid existsb]; rewrite ?tm_nc; reflexivity.
-Qed.
-
-Lemma pf_nc w : collides (marshal_prop_filter w) = false.
-Proof.
-  destruct w as [name test ind tms ps]. unfold marshal_prop_filter, el, at_omitempty.
-  cbn [wpf_name wpf_test wpf_ind wpf_tms wpf_params]. cbn [collides].
-  replace (attr_collides _ _) with false by (destruct (str_empty test); reflexivity). cbn [orb].
-  rewrite !existsb_app, (existsb_map_false collides marshal_text_match tms tm_nc),
-    (existsb_map_false collides marshal_param_filter ps param_nc).
-  destruct ind; reflexivity.
-Qed.
-
-Lemma prop_nc dr : collides (marshal_prop (encode_address_prop_req dr)) = false.
-Proof.
-  unfold marshal_prop, encode_address_prop_req, el. cbn [map marshal_raw DAV_getlastmodified DAV_getetag collides].
-  replace (attr_collides _ _) with false by reflexivity. cbn [orb existsb].
-  replace (collides (Elem (NS_DAV, "getlastmodified") [nsd NS_DAV] [])) with false by reflexivity.
-  replace (collides (Elem (NS_DAV, "getetag") [nsd NS_DAV] [])) with false by reflexivity.
-  rewrite !orb_false_r.
-  unfold marshal_address_data, el. destruct (dr_allprop dr); cbn [wad_props wad_allprop map flag_kid app collides].
-  - reflexivity.
-  - replace (attr_collides _ _) with false by reflexivity. cbn [orb]. rewrite app_nil_r.
-    apply existsb_map_false. intros; reflexivity.
-Qed.
-
-Lemma query_nc q w : query_address_book q = Ok w -> collides (marshal_query w) = false.
-Proof.
-  unfold query_address_book. destruct (mapM encode_prop_filter (q_filters q)) as [pfs| |]; try discriminate.
-  cbn [bind]. intros H; inversion H; subst w; clear H.
-  unfold marshal_query, el. cbn [wq_prop wq_allprop wq_propname wq_filter wq_limit opt_kid flag_kid app collides].
-  replace (attr_collides _ _) with false by reflexivity. cbn [orb existsb].
-  rewrite prop_nc. cbn [orb].
-  unfold marshal_filter, el, at_omitempty. cbn [wf_test wf_props collides].
-  replace (attr_collides (attr_fields (NS_CARD, "filter")) _) with false by (destruct (str_empty (q_test q)); reflexivity).
-  cbn [orb]. rewrite (existsb_map_false collides marshal_prop_filter pfs pf_nc). cbn [orb].
-  destruct (0 <? q_limit q)%Z; reflexivity.
-Qed.
-
-Lemma multiget_nc us path mg : collides (client_multiget_doc us path mg) = false.
-Proof.
-  unfold client_multiget_doc, multi_get_address_book, marshal_multiget, el.
-  cbn [wm_hrefs wm_prop wm_allprop wm_propname opt_kid flag_kid collides].
-  replace (attr_collides _ _) with false by reflexivity. cbn [orb]. rewrite !app_nil_r, existsb_app.
-  cbn [existsb]. rewrite prop_nc. cbn [orb]. rewrite orb_false_r.
-  apply existsb_map_false. intros x. unfold text_kid. destruct (str_empty (us x)); reflexivity.
-Qed.
